@@ -208,6 +208,7 @@ def finish(prop, pc, tier, seed, results, kani_res, wall, update_baseline=False)
                                "per_function": {k: v for k, v in sorted(fn_times.items()) if v["ms"] >= 1}},
             "kani": kani_info,
             "vacuity": {"canaries": canary_total, "canaries_failed_as_required": canary_ok},
+            "proof_stability": {r.name: getattr(r, "stability", None) for r in results if getattr(r, "stability", None)},
             "bounded_stand_ins": [o["id"] + ": " + str(o.get("bounded")) for o in obligations.values() if o.get("bounded")],
             "unverified_residue": pc.get("residue", []),
             "undecided": undecided,
